@@ -181,7 +181,9 @@ func (x *Exec) verifyBody(fn *ssa.Function, c *Contract, res *FuncResult) {
 			// that fails (the other obligations of the function are still reported)
 			cc := c.Calls[key]
 			if len(cc.Asserts) == 0 {
-				panic(contractError(fmt.Sprintf("at-call clause for %s in %s matches no call (contract-shape drift)", key, funcKey(fn))))
+				// an assumption about a call that is gone is moot
+				x.note("at-call assume for %s in %s matches no call any more and was ignored", key, funcKey(fn))
+				continue
 			}
 			for i, a := range cc.Asserts {
 				oname := fmt.Sprintf("%s#at-call.%s.%d", funcKey(fn), key, i+1)
